@@ -37,6 +37,19 @@ type propConfig struct {
 }
 
 var configs = map[string]*propConfig{
+	"C13": {
+		id: "C13", level: "exploration", checkptr: "1", plain: true,
+		quickRuns: 150000, thorRuns: 3000000, enumQuick: true, enumThor: true,
+		memKB: 4 << 20, quickWall: 70 * time.Second, thorWall: 15 * time.Minute, runTimeout: 20 * time.Second,
+		rule: "seeded histories (1..14 calls quick, 1..40 thorough) of Append(x) / Append(x,y,x) / Remove(x) / Remove(nil) / Contains / Count on the six collection kinds, over a generated pool of 3..8 items with pairwise distinct ids in the shapes IRI, *Object, Object, *Actor, Actor, *Activity, Activity (nested properties from the reflect-driven generator), with knobs: initial contents nil or a literal prefix of the pool, exact or spare capacity holding sentinel members, access through the type's own methods, through OnCollectionIntf, or mixed; Remove always through the item-list view (OnItemCollection). Plus the bounded-exhaustive tier: every sequence of length 1..L (L=4 quick, 6 thorough) over the 9-letter alphabet {Append(p_i), Remove(p_i), Append(p_i,p_j,p_i)} on a 3-item pool, for every kind x 3 pool-shape variants x spare capacity {0,2} x initial members {0,2} x access {direct, OnCollectionIntf}. distinct = distinct hash of the rendered history (seeded) / distinct enumerated tuple (exhaustive); non-trivial = contains at least one Append or Remove.",
+		assumptions: []string{
+			"pool items carry pairwise distinct ids; list-valued properties of pool items carry ids (the domain the properties state for lists); Link values are not placed inside pool items (Link equality is C09's subject, not a collection behaviour)",
+			"OnCollectionIntf and ToItemCollection present an IRI list as a converted copy (documented), so writes through them are not part of an IRI list's history; Remove is not defined on IRI lists",
+			"single caller goroutine (the containers are documented as not safe for concurrent mutation); no fault or schedule dimension exists for this property (DESIGN.md §5)",
+		},
+		realCode: []string{"github.com/go-ap/activitypub (instrumented scratch copy of /repo's working tree)"},
+		stubCode: []string{"history generator (clients)", "reference insertion-ordered set of ids", "reflect-driven item generator"},
+	},
 	"C19": {
 		id: "C19", level: "exploration", checkptr: "1", plain: true,
 		quickRuns: 400000, thorRuns: 6000000,
@@ -212,7 +225,7 @@ func check(propID, tier string) int {
 	if len(classes) > 4 {
 		minBudget = minBudget / time.Duration(len(classes)/4+1)
 	}
-	os.MkdirAll(filepath.Join(verifDir, "replays"), 0o755)
+	os.MkdirAll(filepath.Join(outDir, "replays"), 0o755)
 	for _, class := range classes {
 		f := byClass[class]
 		f.known = matchKnown(known, propID, class)
@@ -257,7 +270,7 @@ func check(propID, tier string) int {
 			f.detail = r1.detail
 		}
 		name := fmt.Sprintf("%s-%s-%s.json", propID, tier, core.HashStr(class)[:10])
-		path := filepath.Join(verifDir, "replays", name)
+		path := filepath.Join(outDir, "replays", name)
 		raw, _ := json.MarshalIndent(struct {
 			*core.Plan
 			Class  string `json:"class"`
@@ -383,12 +396,12 @@ func firstLine(s string) string {
 }
 
 func writeEvidence(propID string, ev map[string]any) {
-	os.MkdirAll(filepath.Join(verifDir, "evidence"), 0o755)
+	os.MkdirAll(filepath.Join(outDir, "evidence"), 0o755)
 	raw, err := json.MarshalIndent(ev, "", " ")
 	if err != nil {
 		fatal2("evidence: %v", err)
 	}
-	if err := os.WriteFile(filepath.Join(verifDir, "evidence", propID+".json"), raw, 0o644); err != nil {
+	if err := os.WriteFile(filepath.Join(outDir, "evidence", propID+".json"), raw, 0o644); err != nil {
 		fatal2("evidence: %v", err)
 	}
 }
